@@ -22,6 +22,18 @@ TECHNIQUE = ("static analysis: abstract interpretation of the builders and the l
              "polynomial identity with the property's matrices; interpretation of the argument assembly; shape inference")
 
 
+def _tables_binding(ce, tables):
+    """how the (private) table helper's result reaches checkEquation: a pair is spread over the second and third parameter, a
+    mapping is spread by name - whichever convention the package uses between the two"""
+    if isinstance(tables, tuple) and len(tables) == 2 and not hasattr(tables, "_fields"):
+        return {ce.params[1]: tables[0], ce.params[2]: tables[1]}
+    if isinstance(tables, dict) and tables and set(tables) <= set(ce.params[1:]):
+        return dict(tables)
+    if hasattr(tables, "_fields") and set(tables._fields) <= set(ce.params[1:]):
+        return dict(zip(tables._fields, tables))
+    return None
+
+
 def check(repo, res, tier):
     res.rule("R-EFFECT", "each builder, interpreted on enumerated model definitions (1..3 B/D/T members per event, shared states, symbolic magnitudes, "
              "explicit terms, one-state / one-event shapes), returns entry by entry what the property defines: V[i,e] = signed magnitudes, rates[e] = rate of event e, "
@@ -150,7 +162,10 @@ def _check_argorder(repo, res, cls):
             me = Obj("compileCode", _backend="cython")
             try:
                 ab = Abs({}, {}, {"autowrap": autowrap, "lambdify": lambdify, "print": lambda *a, **k: None}, me, {})
-                ab.class_methods = set()
+                _cc = repo.cls(M.M_UTILS, "compileCode")
+                ab.class_methods = set(_cc.methods) | set(_cc.getters)       # helpers of the class are interpreted from their source
+                ab.self_class = (repo, _cc)
+                ab.module = ce.module
                 kind, out = ab.run_function(ce.node, {ce.params[1]: SYMB, ce.params[2]: EXPR, "backend": backend, "compileType": True})
             except Undecided as e:
                 res.undecided("R-ARGORDER", ce, "backends", "outside the modelled subset: %s" % e)
@@ -271,14 +286,15 @@ def _check_derived(repo, res, cls):
                     ab = fresh()
                     ab.module = gl.module
                     kind, tables = ab.run_function(gl.node, {})
-                    if kind != "return" or not (isinstance(tables, tuple) and len(tables) == 2):
+                    bind = _tables_binding(ce, tables) if kind == "return" else None
+                    if bind is None:
                         problems.append("_getListOfVariablesDict gives %r" % (tables,))
                         break
                     ab2 = fresh()
                     ab2.self_obj = None
                     ab2.module = ce.module
                     arg = text if form == "string" else [text, "a + " + text]
-                    kind, out = ab2.run_function(ce.node, {ce.params[0]: arg, ce.params[1]: tables[0], ce.params[2]: tables[1]})
+                    kind, out = ab2.run_function(ce.node, dict(bind, **{ce.params[0]: arg}))
                     n += 1
                     if kind != "return":
                         problems.append("%s: parsing %r raises %s" % (label, arg, out))
@@ -294,7 +310,7 @@ def _check_derived(repo, res, cls):
             ab = fresh()
             ab.module = gl.module
             _, tables = ab.run_function(gl.node, {})
-            kind, out = ab2.run_function(ce.node, {ce.params[0]: "d*S", ce.params[1]: tables[0], ce.params[2]: tables[1], ce.params[3]: False})
+            kind, out = ab2.run_function(ce.node, dict(_tables_binding(ce, tables) or {}, **{ce.params[0]: "d*S", ce.params[3]: False}))
             n += 1
             if not (kind == "return" and type(out).__name__ == "Rat" and out == A.sym("d") * S):
                 problems.append("with substitution switched off 'd*S' is parsed to %r" % (out,))
@@ -341,14 +357,27 @@ def check_closures(repo, res):
                     rows = [[100 * i + 10 * j + x[0] for j in range(_c)] for i in range(_r)]
                     return NumArr(rows) if _ct == "np" else SymLike(rows)
 
-                def compile_expr(me_, inputSymb=None, inputExpr=None, backend=None, compileType=False, *a, **k):
-                    fn = ("py", compiled)
-                    return (fn, ctype) if compileType else fn
+                # the library boundary: sympy's autowrap / lambdify.  On the "np" back-end the compiled code works on numpy arrays; for
+                # the "mpmath" one every numpy route fails and lambdify(modules='mpmath') hands back a function returning a sympy-like
+                # matrix.  The class's own routines (compileExpr and whatever helpers it has) are interpreted from their source.
+                def autowrap_(expr=None, args=None, backend=None, **k):
+                    if ctype != "np":
+                        raise Raised("CodeWrapError(compilation failed)")
+                    return ("py", compiled)
+
+                def lambdify_(args=None, expr=None, modules=None, **k):
+                    if ctype != "np" and modules == "numpy":
+                        raise Raised("ValueError(cannot be lambdified with numpy)")
+                    return ("py", compiled)
                 summ = dict(num_summaries())
-                summ["compileCode.compileExpr"] = compile_expr
-                me = Obj("compileCode")
-                ab = Abs({}, {}, summ, me, {}, budget=20000)
-                ab.class_methods = {"compileExpr"}
+                summ.update({"autowrap": autowrap_, "lambdify": lambdify_, "sympy.utilities.autowrap.autowrap": autowrap_, "sympy.lambdify": lambdify_,
+                             "sympy.utilities.lambdify.lambdify": lambdify_})
+                me = Obj("compileCode", _backend="cython")
+                ab = Abs({}, {}, summ, me, {}, budget=40000)
+                cc_cls = repo.cls(M.M_UTILS, "compileCode")
+                ab.class_methods = set(cc_cls.methods) | set(cc_cls.getters)
+                ab.self_class = (repo, cc_cls)
+                ab.module = f.module
                 tag = "shape %dx%d, outType=%r, back-end %s" % (r, c, ot, ctype)
                 try:
                     kind, out = ab.run_function(f.node, {"inputSymb": ["s"], "inputExpr": Expr(r, c), "outType": ot})
